@@ -143,8 +143,9 @@ bytes).  The property only speaks about decoding *encodings*: `dec_enc`. -/
 
 /-- For every structure `v` — every `BDict`, sorted or not, duplicates or not: the decoder returns the
 item sequence of the stream — and any following bytes, decoding `enc v ++ rest` yields exactly `v` and
-leaves exactly `rest`.  `Fits v`: no byte string of 2^63 bytes or more (`Py_ssize_t`; CPython cannot
-build one, and `f.read(n)` raises OverflowError for such `n`). -/
+leaves exactly `rest`.  `Fits v` = what `bencode` can emit on CPython: ints within the 4300-digit cap of
+`str()`/`int()` (beyond it `bencode` raises ValueError, see (4), and so would `int()` in `bdecode`) and no byte
+string of 2^63 bytes or more (`Py_ssize_t`; `f.read(n)` raises OverflowError for such `n`). -/
 theorem dec_enc (v : BVal) (rest : List UInt8) (h : Fits v) :
     decode (enc v ++ rest) = .ok (ofB v, rest) := decode_enc v rest h
 
@@ -199,7 +200,7 @@ theorem decode_total (data : List UInt8) : decode data ≠ .error .fuel := decod
 /-- non-vacuity of `dec_enc` and what `bdecode` accepts beyond encodings (closed instances) -/
 example : decode (enc (.dict (.cons [97] (.list (.cons (.int (-7)) .nil)) .nil)) ++ [120])
     = .ok (ofB (.dict (.cons [97] (.list (.cons (.int (-7)) .nil)) .nil)), [120]) :=
-  dec_enc _ _ (by simp [Fits, FitsDict, FitsList])
+  dec_enc _ _ (by simp [Fits, FitsDict, FitsList, intFits_of_lt_ten])
 
 /-- `i-0e`, `i03e`, `i 1_0 e` decode although nothing encodes to them -/
 theorem dec_accepts_non_encodings :
@@ -217,5 +218,82 @@ theorem dec_accepts_non_encodings :
 /-- duplicate keys: the Python dict keeps the last binding -/
 example : canonD (.dict (.cons [97] (.int 1) (.cons [97] (.int 2) .nil))) = .dict (.cons [97] (.int 2) .nil) := by
   simp [canonD, canonDDict, dHasKey, dInsert]
+
+/-! ## (4) the int → decimal digit cap: over-cap ints are rejected, not encoded
+
+`str(integer)` in `_encode_int` raises `ValueError` beyond 4300 decimal digits (Python ≥ 3.11), so
+`bencode` rejects such ints; `encodeE` is `bencode` with its exception class.  Injectivity and
+prefix-freeness hold for all of `enc` (above), in particular on what `bencode` emits: -/
+
+/-- the cap in numbers: `str(z)` works iff `|z| < 10^4300` -/
+theorem intFits_iff (z : Int) : intFits z = true ↔ z.natAbs < 10 ^ intMaxStrDigits := intFits_iff_lt z
+
+theorem enc_unique_parse_encodable (a b : BVal) (r1 r2 : List UInt8) (_ha : encodable a = true)
+    (_hb : encodable b = true) (h : enc a ++ r1 = enc b ++ r2) : a = b ∧ r1 = r2 := enc_unique_parse a b r1 r2 h
+
+theorem enc_injective_encodable (a b : BVal) (_ha : encodable a = true) (_hb : encodable b = true)
+    (h : enc a = enc b) : a = b := enc_injective a b h
+
+theorem enc_prefix_free_encodable (a b : BVal) (r : List UInt8) (_ha : encodable a = true)
+    (_hb : encodable b = true) (h : enc a ++ r = enc b) : a = b ∧ r = [] := enc_prefix_free a b r h
+
+/-- `bencode` returns bytes exactly for the structures that normalise and whose ints are all within the cap -/
+theorem encodeE_ok_iff (x : PyVal) (bs : List UInt8) :
+    encodeE x = .ok bs ↔ ∃ v, norm x = some v ∧ encodable v = true ∧ bs = enc v := by
+  unfold encodeE
+  cases hn : norm x with
+  | none => simp
+  | some v =>
+    by_cases he : encodable v = true
+    · simp [he]; exact eq_comm
+    · simp [he]
+
+/-- the ValueError case: the structure is fine but holds an int beyond the cap -/
+theorem encodeE_value_iff (x : PyVal) :
+    encodeE x = .error .value ↔ ∃ v, norm x = some v ∧ encodable v = false := by
+  unfold encodeE
+  cases hn : norm x with
+  | none => simp
+  | some v =>
+    by_cases he : encodable v = true
+    · simp [he]
+    · simp [he]
+
+/-- two Python structures that `bencode` maps to the same bytes normalise to the same structure -/
+theorem encodeE_injective (x y : PyVal) (bs : List UInt8) (hx : encodeE x = .ok bs) (hy : encodeE y = .ok bs) :
+    norm x = norm y := by
+  obtain ⟨a, ha, _, rfl⟩ := (encodeE_ok_iff x _).mp hx
+  obtain ⟨b, hb, _, hab⟩ := (encodeE_ok_iff y _).mp hy
+  rw [ha, hb, enc_injective a b hab]
+
+/-- An int of more than 4300 digits is rejected with ValueError — it is never written in another base. -/
+theorem rejects_beyond_cap (z : Int) (h : 10 ^ intMaxStrDigits ≤ z.natAbs) :
+    encodeE (.int z) = .error .value := by
+  have hf : intFits z = false := by
+    cases hh : intFits z with
+    | false => rfl
+    | true => have := (intFits_iff z).mp hh; omega
+  simp [encodeE, norm, encodable, hf]
+
+theorem accepts_within_cap (z : Int) (h : z.natAbs < 10 ^ intMaxStrDigits) :
+    encodeE (.int z) = .ok (enc (.int z)) := by
+  simp [encodeE, norm, encodable, (intFits_iff z).mpr h]
+
+/-- ... at any place of a list or as a dict value -/
+theorem rejects_beyond_cap_nested (z : Int) (h : 10 ^ intMaxStrDigits ≤ z.natAbs) (k : List UInt8) :
+    encodeE (.list (.cons (.int 1) (.cons (.int z) .nil))) = .error .value
+    ∧ encodeE (.dict (.cons (.str k) (.tuple (.cons (.int z) .nil)) .nil)) = .error .value := by
+  have hf : intFits z = false := by
+    cases hh : intFits z with
+    | false => rfl
+    | true => have := (intFits_iff z).mp hh; omega
+  constructor
+  · simp [encodeE, norm, normList, encodable, encodableList, hf]
+  · simp [encodeE, norm, normList, normDict, keyKind, insertItem, encodable, encodableList, encodableDict, hf]
+
+/-- non-vacuity: `±10^4300` is rejected, `±(10^4300 - 1)` is encoded -/
+example : encodeE (.int ((10 : Int) ^ intMaxStrDigits)) = .error .value
+    ∧ encodeE (.int (-((10 : Int) ^ intMaxStrDigits))) = .error .value :=
+  ⟨rejects_beyond_cap _ (by simp [Int.natAbs_pow]), rejects_beyond_cap _ (by simp [Int.natAbs_pow])⟩
 
 end RedunModel.C14
